@@ -1,4 +1,6 @@
 #![cfg(all(feature = "builtins", feature = "macros"))]
+use minijinja::formatting::{format, FormatStyle};
+use minijinja::value::Value;
 use minijinja::{context, Environment, ErrorKind};
 
 fn render(source: &str) -> Result<String, minijinja::Error> {
@@ -59,4 +61,40 @@ fn test_divisibleby_zero() {
 fn test_expression_with_closing_delimiter() {
     assert_eq!(eval_err("1 }} 2"), ErrorKind::SyntaxError);
     assert_eq!(eval_err("}}x"), ErrorKind::SyntaxError);
+}
+
+#[test]
+fn test_size_limits() {
+    for source in [
+        "'x'|indent(9223372036854775807)",
+        "'x'|indent(1099511627776)",
+        "'a\nb'|indent(100000000)",
+        #[cfg(feature = "json")]
+        "[1]|tojson(9223372036854775807)",
+        #[cfg(feature = "json")]
+        "[1]|tojson(indent=100000001)",
+        "'%9223372036854775807d'|format(1)",
+        "'%0100000001d'|format(1)",
+        "'%.65535f'|format(1.0)",
+        "(1, 2) * 9223372036854775807",
+        "(1, 2) * 1099511627776",
+        "[1, 2] * 9223372036854775807",
+        "[1, 2] * 50000001",
+        "range(3) * 9223372036854775807",
+    ] {
+        assert_eq!(eval_err(source), ErrorKind::InvalidOperation, "{}", source);
+    }
+    for spec in ["{:>1099511627776}", "{:0100000001}", "{:.65535f}"] {
+        let err = format(FormatStyle::StrFormat, spec, &[Value::from(1.0)]).unwrap_err();
+        assert_eq!(err.kind(), ErrorKind::InvalidOperation, "{}", spec);
+    }
+    assert_eq!(render("{{ 'a\nb'|indent(2) }}").unwrap(), "a\n  b");
+    assert_eq!(render("{{ '%5d|%.3f'|format(1, 2.0) }}").unwrap(), "    1|2.000");
+    assert_eq!(render("{{ '%.65531g'|format(1.5) }}").unwrap(), "1.5");
+    assert_eq!(render("{{ (1, 2) * 2 }}").unwrap(), "(1, 2, 1, 2)");
+    assert_eq!(render("{{ ([1, 2] * 2)|list }}").unwrap(), "[1, 2, 1, 2]");
+    assert_eq!(
+        render("{{ ([] * 9223372036854775807)|list }}{{ () * 9223372036854775807 }}").unwrap(),
+        "[]()"
+    );
 }
